@@ -15,13 +15,14 @@
 
    The _partial theorems are the full refinement statement for a container ANYWHERE in a well-formed forest driven by calls
    with plain Python arguments.  What they leave to the correspondence (model vs pg.List / pg.Dict on generated histories,
-   every step): arguments that are existing symbolic nodes (adopted or copied at write time -- Python would alias), opaque
+   every step): arguments that are existing symbolic nodes (adopted or copied at write time -- Python would alias) in
+   operations other than append, opaque
    objects as written values, MISSING_VALUE written into a list by rebind (the element is dropped at the next notification). *)
 From Coq Require Import ZArith NArith List Bool.
 From PG Require Import Common.Tactics Model.SymCoreDefs Model.SymCoreOps Model.SymCoreSpec Model.SymCoreC02
      Proofs.SymCoreWF Proofs.SymCoreIds Proofs.SymCoreC02Base Proofs.SymCoreC02Read Proofs.SymCoreC02Frame Proofs.SymCoreC02Prim
      Proofs.SymCoreC02List Proofs.SymCoreC02Items Proofs.SymCoreC02Dict Proofs.SymCoreC02Step Proofs.SymCoreC02Ext Proofs.PyListFacts
-     Proofs.SymCoreC02Slice Proofs.SymCoreC02WF Proofs.SymCoreC02Or Proofs.SymCoreC02Rebind Proofs.SymCoreC02Nested Proofs.SymCoreC02Examples Proofs.SymCoreC02Summary Proofs.SymCoreC02Init.
+     Proofs.SymCoreC02Slice Proofs.SymCoreC02WF Proofs.SymCoreC02Or Proofs.SymCoreC02Rebind Proofs.SymCoreC02Nested Proofs.SymCoreC02Refs Proofs.SymCoreC02Examples Proofs.SymCoreC02Summary Proofs.SymCoreC02Init.
 From PG Require Model.PyList Model.PyDict.
 Import ListNotations.
 Local Open Scope Z_scope.
@@ -130,6 +131,17 @@ Theorem C02_refines_python_rebind_nested_partial : forall q sc tp st tid tk pa f
   out = match snd res with None => Ok RNone | Some e => Err (err_of e) end.
 Proof. exact exec_rebind_nested_refines. Qed.
 Print Assumptions C02_refines_python_rebind_nested_partial.
+
+(* l.append(x) where x is ANY value: a literal, a symbolic value that has a parent (copied at write time) or the root of another
+   tree (adopted: its slot in the forest empties).  The list ends with what x denoted when the call started ([ref_value]); the
+   frame is weaker than for literals ([wrote_w]: nothing is claimed about the other roots). *)
+Theorem C02_refines_python_append_reference_partial : forall q sc ps tid pa fl st its rv v st' out,
+  no_quirks q -> WFI st -> at_is st ps tid KList pa fl its -> clean its -> anc_clean st ps -> treats_as_sealed sc fl = false ->
+  ref_value st rv v -> is_missing_rv rv = false ->
+  exec q sc st ps tid KList (snd ps) fl its (LAppend rv) = (st', out) ->
+  out = Ok RNone /\ wrote_w ps tid pa fl st' (evals its ++ [v]).
+Proof. exact exec_append_ref_refines. Qed.
+Print Assumptions C02_refines_python_append_reference_partial.
 
 (* --- C02_history: every finite history on one container ---------------------------------------------------------------------- *)
 (* lists: base catalogue and slice operations interleaved in any order; [lhist2_ok] only says that every call has plain
